@@ -7,6 +7,7 @@ package main
 //         re-executes this binary as an SFTP server (github.com/pkg/sftp) on stdin/stdout.
 
 import (
+	"context"
 	"fmt"
 	"io"
 	"net/http"
@@ -25,6 +26,15 @@ import (
 )
 
 func init() {
+	// sub-mode: `<vh> C03PULL pull - - - <dir>`: the real ProtocolServer over a content-trusting
+	// store, on stdin/stdout (started by RemoteSSH through the fake ssh)
+	if len(os.Args) > 6 && os.Args[1] == "C03PULL" {
+		if os.Getenv("VH_C03_DIGEST") == "sha256" {
+			desync.Digest = desync.SHA256{}
+		}
+		desync.NewProtocolServer(os.Stdin, os.Stdout, &c03ForeignStore{dir: os.Args[6]}).Serve(context.Background())
+		os.Exit(0)
+	}
 	// sub-mode: SFTP server over stdio (started through the fake ssh)
 	if len(os.Args) > 1 && os.Args[1] == "C03SFTP" {
 		srv, err := sftp.NewServer(struct {
